@@ -24,7 +24,7 @@ def spec(tier):
     for n in ([0, 1, 2, 3, 5] if quick else range(0, 9)):
         jobs.append(dict(unit=mkunit(units, N=n), entry="h_uri_parse_arbitrary", unwind=n + 4, unwind_is_property=True,
                          bounds="URI text of %d arbitrary bytes" % n, what="parse of arbitrary text (state functions in sequence): memory-safe, views inside uri_str, failure leaves a zeroed object"))
-    shapes = [0x00, 0x80, 0x01, 0x08, 0x10, 0x04, 0x14, 0x0C, 0x1C, 0x1F, 0x3F, 0x5F, 0x0D, 0x16, 0x9C, 0x89, 0x47] if quick else [x for x in range(256)]
+    shapes = [0x00, 0x80, 0x81, 0x01, 0x08, 0x10, 0x04, 0x14, 0x0C, 0x1C, 0x1F, 0x3F, 0x5F, 0x0D, 0x16, 0x9C, 0x89, 0x47] if quick else [x for x in range(256)]
     for sh in shapes:
         if (sh & 32) and not (sh & 2):
             continue
@@ -45,7 +45,7 @@ def spec(tier):
                              what="parse(compose(components)) == components; views inside uri_str"))
             if not (sh & 2) and sh not in (0x80, 0x81) and pd == 2:  # the builder has no user-info option; nothing to build for the empty shape
               for ent in (("h_uri_builder_parse", "h_uri_builder_parse_query_list") if (sh & 16) else ("h_uri_builder_parse",)):
-                jobs.append(dict(unit=u, entry=ent, unwind=(14 if pd == 2 else 22) + (6 if sh & 64 else 0), timeout=500 if quick else 1500, backend="kissat" if pd == 10 else "minisat",
+                jobs.append(dict(unit=u, entry=ent, unwind=14 if pd == 2 else 22, timeout=500 if quick else 1500, backend="kissat" if pd == 10 else "minisat",
                                  bounds="shape 0x%02x, %d port digits; query as %s" % (sh, pd, "key=value list" if ent.endswith("list") else "string"),
                                  what="real builder assembles the text (its final dispatcher call cut), then parse == components"))
     meta = dict(functions_encoded=["all of source/uri.c"], bounds="component lengths fixed per shape (<= 3 chars each), port up to 10 digits, encoders up to 4/8 bytes, query up to 5/10 bytes",
@@ -53,4 +53,4 @@ def spec(tier):
                 out=["the 12-line table dispatcher s_init_from_uri_str (replaced by explicit sequencing of the real state functions: > 7 GB otherwise)",
                      "inputs longer than the bounds"],
                 assumptions=["host characters exclude / ? @ : [ ] and NUL; user characters exclude / ? @ : and NUL"])
-    return dict(units=units, jobs=jobs, meta=meta, max_parallel=8)
+    return dict(units=units, jobs=jobs, meta=meta, max_parallel=8 if tier == "quick" else 6)  # the query-list builder jobs need 6 GB each
